@@ -118,8 +118,11 @@ pub fn archive_inputs(seed: u64, which: u64) -> (Params, SampleSet) {
     (p, set)
 }
 
-fn alloc_limit(file_len: usize) -> usize {
-    64 * file_len + (16 << 20)
+/// "Garbage-sized" is judged against what the intact file needs: the largest single block that
+/// opening the complete archive asks for (measured in the same child) times 4, or 64 x the file
+/// length + 16 MiB, whichever is larger. A legitimately large fixed buffer therefore never counts.
+fn alloc_limit(file_len: usize, intact_open_max: usize) -> usize {
+    (64 * file_len + (16 << 20)).max(intact_open_max.saturating_mul(4))
 }
 
 /// Child: try the given prefix lengths of `archive` (descending), one report
@@ -138,6 +141,13 @@ pub fn child(args: &Args, rep: &mut Report) -> i32 {
     std::fs::write(work, &full).expect("write work copy");
     let f = std::fs::OpenOptions::new().write(true).open(work).expect("open work copy");
     let mut classes: std::collections::BTreeMap<String, u64> = Default::default();
+    // baseline: the complete file
+    crate::ALLOC_MAX.store(0, std::sync::atomic::Ordering::SeqCst);
+    let _ = catch_unwind(AssertUnwindSafe(|| {
+        let _ = Decompressor::open(work, DecompressorConfig { verbosity: 0 }).map(|d| d.list_samples().len());
+    }));
+    let intact_open_max = crate::ALLOC_MAX.load(std::sync::atomic::Ordering::SeqCst);
+    rep.max("max_single_allocation_bytes_opening_the_intact_file", intact_open_max as u64);
     for n in sorted {
         if n >= full.len() {
             continue;
@@ -172,7 +182,7 @@ pub fn child(args: &Args, rep: &mut Report) -> i32 {
                 }
             }
         }
-        if bad.is_none() && max_alloc > alloc_limit(full.len()) {
+        if bad.is_none() && max_alloc > alloc_limit(full.len(), intact_open_max) {
             bad = Some(format!("allocation: opening the {}-byte prefix requested a single block of {} bytes", n, max_alloc));
         }
         if let Some(w) = bad {
